@@ -25,7 +25,7 @@ package ecs
 //@   ensures  swapped: result == (index != old(t.len) - 1)
 //@   ensures  moved: result ==> rowEnt(t)[index] == old(rowEnt(t)[t.len-1])
 //@   ensures  others: forall r uint32 :: __trigger(rowEnt(t)[r]) && (r < t.len && r != index ==> rowEnt(t)[r] == old(rowEnt(t)[r]))
-//@   modifies t.len, rowEnt(t)[*], t.entities.pointer, t.entities.data, t.columns[*]
+//@   modifies t.len, rowEnt(t)[*], t.entities.pointer, t.entities.data, t.columns[*].pointer, t.columns[*].data
 
 //@ func (*table).Add
 //@   serves C01 C02 C09
@@ -34,7 +34,7 @@ package ecs
 //@   ensures  row: result == old(t.len) && t.len == old(t.len) + 1 && t.len <= t.cap
 //@   ensures  stored: rowEnt(t)[result] == entity
 //@   ensures  others: forall r uint32 :: __trigger(rowEnt(t)[r]) && (r < old(t.len) ==> rowEnt(t)[r] == old(rowEnt(t)[r]))
-//@   modifies t.len, t.cap, rowEnt(t)[*], t.entities.pointer, t.entities.data, t.columns[*]
+//@   modifies t.len, t.cap, rowEnt(t)[*], t.entities.pointer, t.entities.data, t.columns[*].pointer, t.columns[*].data
 
 //@ func (*entityPool).Alive
 //@   serves C02 C10
@@ -63,7 +63,7 @@ package ecs
 //@   requires cap >= t.len
 //@   ensures  cap: t.cap == cap && t.len == old(t.len)
 //@   ensures  rows: forall r uint32 :: __trigger(rowEnt(t)[r]) && (r < t.len ==> rowEnt(t)[r] == old(rowEnt(t)[r]))
-//@   modifies t.cap, rowEnt(t)[*], t.entities.pointer, t.entities.data, t.columns[*]
+//@   modifies t.cap, rowEnt(t)[*], t.entities.pointer, t.entities.data, t.columns[*].pointer, t.columns[*].data
 
 // Capacity reduction (C15): after Shrink the capacity is at least the size and at most the
 // larger of the given minimum and the next power of two of the size; rows are preserved.
@@ -81,7 +81,7 @@ package ecs
 //@   ensures  shrunk: result ==> t.cap == max(capPow2(t.len), minCapacity) && t.cap < old(t.cap)
 //@   ensures  bounds: t.len == old(t.len) && t.len <= t.cap
 //@   ensures  rows: forall r uint32 :: r < t.len ==> rowEnt(t)[r] == old(rowEnt(t)[r])
-//@   modifies t.cap, rowEnt(t)[*], t.entities.pointer, t.entities.data, t.columns[*]
+//@   modifies t.cap, rowEnt(t)[*], t.entities.pointer, t.entities.data, t.columns[*].pointer, t.columns[*].data
 
 //@ func (*table).Extend
 //@   serves C01 C15
